@@ -321,7 +321,11 @@ func crossValidate(id string, u *Unit, samples []*XSample, repo string) (ok, fai
 	for virt, real := range u.VirtFiles {
 		ov[filepath.Join(repo, virt)] = filepath.Join(repo, real)
 	}
-	for _, f := range u.Files {
+	xfiles := u.Files
+	if len(u.XFiles) > 0 {
+		xfiles = u.XFiles
+	}
+	for _, f := range xfiles {
 		real := filepath.Join(verifRoot, "harness", id, f)
 		if _, err := os.Stat(real); err != nil {
 			real = filepath.Join(workDir(id), f)
